@@ -306,6 +306,13 @@ def term1(ctx, c):
                 c.ok(site, "every unfixed statement is sized on each pass and sizing always fixes it: at most one pass", repo.loc(ts, lp))
             elif has_exit and covers:
                 c.ok(site, "the loop has a no-progress exit", repo.loc(ts, lp))
+            elif not covers and not has_exit and not any(isinstance(x, (ast.Return, ast.Raise)) and not any(x in list(ast.walk(h)) for t_ in ast.walk(lp) if isinstance(t_, ast.Try) for h in t_.handlers)
+                                                        for x in ast.walk(lp)) and \
+                    all(cn in ("enumerate", "range", "len", "print", "str", "repr", "TranslationError", "ParseError") or cn.startswith("logging.") for cn in calls
+                        if cn != "self.all_sizes_fixed") and not any(isinstance(x, (ast.Assign, ast.AugAssign)) and "fixed_size" in U(x) for x in ast.walk(lp)):
+                c.finding(site, "nothing in the loop can change what its test reads",
+                          "the loop repeats while some statement is unsized, but its body neither sizes a statement nor leaves the loop (calls made: %s): with one PC-relative "
+                          "operand awaiting its size the assembler never returns" % sorted(set(calls) - {"self.all_sizes_fixed"}), repo.loc(ts, lp))
             elif not covers:
                 c.undecided(site, "sizing-loop-shape-not-recognised", "", repo.loc(ts, lp))
             else:
@@ -319,7 +326,32 @@ def term1(ctx, c):
     good = re.search(r"for (\w+) in self\.statements:\s+if not \1\.fixed_size:\s+return False\s+return True", t) is not None or \
         re.search(r"return all\(\(?(\w+)\.fixed_size for \1 in self\.statements\)?\)", t) is not None or \
         re.search(r"return not any\(\(?not (\w+)\.fixed_size for \1 in self\.statements\)?\)", t) is not None
-    c.shape(good, "Program.all_sizes_fixed", "False iff some statement is not fixed", "all_sizes_fixed has another shape", repo.loc(af, af.node))
+    # decide by evaluating the predicate for three statement lists
+    from ..concrete import Obj as _Obj, run_concrete as _rc
+    verdicts = []
+    notes_all = []
+    for flags, want in (([], True), ([True, True], True), ([True, False], False), ([False], False), ([False, True, True], False)):
+        objs = []
+        for fl in flags:
+            o = _Obj("Statement")
+            o.attrs["fixed_size"] = fl
+            objs.append(o)
+        env_ = dict(ctx.env)
+        env_["self.statements"] = objs
+        ev_, nt_ = [], []
+        _rc(body_without_doc(af.node), env_, ev_, nt_)
+        notes_all += nt_
+        verdicts.append((flags, env_.get("$return"), want))
+    wrong = [(f_, g_) for f_, g_, w_ in verdicts if g_ is not w_]
+    if not wrong:
+        c.ok("Program.all_sizes_fixed", "False iff some statement is not fixed", repo.loc(af, af.node))
+    elif notes_all or any(not isinstance(g_, bool) for _, g_ in wrong):
+        c.shape(good, "Program.all_sizes_fixed", "False iff some statement is not fixed", "all_sizes_fixed has another shape", repo.loc(af, af.node))
+    else:
+        c.finding("Program.all_sizes_fixed", "answers %s for statements with fixed_size %s" % (wrong[0][1], wrong[0][0]),
+                  "Program.all_sizes_fixed returns %s for statements whose fixed_size flags are %s: the sizing loop %s" %
+                  (wrong[0][1], wrong[0][0], "never ends" if wrong[0][1] is False else "stops while a statement is still unsized, which is then laid out with its provisional size"),
+                  repo.loc(af, af.node))
     # TERM-2
     cg = _cg(ctx)
     cyc = cg.cycles_from("Program.process")
